@@ -176,6 +176,17 @@ structure CustLine where
   service : Int
 deriving DecidableEq, Repr
 
+/-- run a line reader over all lines, first error wins (the readers stop at the first bad line) -/
+def mapE (f : α → Except Err β) : List α → Except Err (List β)
+  | [] => .ok []
+  | a :: as =>
+    match f a with
+    | .error e => .error e
+    | .ok b =>
+      match mapE f as with
+      | .error e => .error e
+      | .ok bs => .ok (b :: bs)
+
 /-- `read_customer`: the first seven tokens (`try_collect_tuple` ignores the rest) -/
 def readCustomer7 : Line → Except Err CustLine
   | .nums (a :: b :: c :: d :: e :: f :: g :: _) => .ok ⟨a, b, c, d, e, f, g⟩
@@ -205,7 +216,7 @@ def parseSolomon (rounded : Bool) (ls : List Line) : Except Err Problem' :=
       match readCustomer7 d with
       | .error e => .error e
       | .ok dep =>
-        match custs.mapM readCustomer7 with
+        match mapE readCustomer7 custs with
         | .error e => .error e
         | .ok cs =>
           let r := collect [] (dep.x, dep.y)
@@ -278,7 +289,7 @@ def parseLilim (rounded : Bool) (ls : List Line) : Except Err Problem' :=
       match readCustomer9 d with
       | .error e => .error e
       | .ok dep =>
-        match custs.mapM readCustomer9 with
+        match mapE readCustomer9 custs with
         | .error e => .error e
         | .ok rows =>
           let r := collect [] (dep.x, dep.y)
@@ -680,7 +691,8 @@ def decodeFleet (vs : List DVehicle) : Option (Nat × Int × (Int × Int) × Int
   | v :: _ =>
     match v.s, v.sE, v.eL with
     | some xy, some (.fin lo), some hi =>
-      if (vs.zipIdx).all (fun (w, k) => w.idx = k && w.cap = v.cap && w.s = some xy && w.e = some xy &&
+      if vs.map (·.idx) = List.range vs.length ∧
+         vs.all (fun w => w.cap = v.cap && w.s = some xy && w.e = some xy &&
             w.sE = some (.fin lo) && w.sL = none && w.eE = none && w.eL = some hi)
       then some (vs.length, v.cap, xy, lo, hi) else none
     | _, _, _ => none
